@@ -72,6 +72,28 @@ def one_kind(kind: str, reps: int, flush_every: int) -> Dict[str, Any]:
             nq += 1
             hist += [{"s": "qubit", "h": f"Q{nq}"}, {"s": "meas", "q": f"Q{nq}", "inplace": False, "into": {"k": "newreg", "h": f"F{nq}"}}]
             meas += 1
+        elif kind == "register-add-future":
+            # an outcome kept in a register gets an array entry added to it (parity accumulation)
+            nq += 1
+            hist += [{"s": "qubit", "h": f"Q{nq}"}, {"s": "meas", "q": f"Q{nq}", "inplace": False, "into": {"k": "newreg", "h": f"F{nq}"}},
+                     {"s": "add", "t": {"k": "reg", "h": f"F{nq}"}, "o": fut("A1", c(r % 3)), "mod": 2}]
+            meas += 1
+        elif kind == "measure-into-the-same-register-future":
+            # one register future object is the target of a measurement again and again, as the exit condition of a
+            # repeat-until whose body makes further measurements after it (the value must survive to the end of the body)
+            if r == 0:
+                nq += 1
+                hist += [{"s": "qubit", "h": f"Q{nq}"}, {"s": "meas", "q": f"Q{nq}", "inplace": False, "into": {"k": "newreg", "h": "FX"}}]
+                meas += 1
+            body_ = []
+            nq += 1
+            body_ += [{"s": "qubit", "h": f"Q{nq}"}, {"s": "meas", "q": f"Q{nq}", "inplace": False, "into": {"k": "reg", "h": "FX"}}]
+            for _x in range(1):        # (one: with the alternating outcome script the later outcome then differs from the kept one)
+                nq += 1
+                body_ += [{"s": "qubit", "h": f"Q{nq}"}, {"s": "gate", "g": "x", "qs": [f"Q{nq}"]},
+                          {"s": "meas", "q": f"Q{nq}", "inplace": False, "into": fut("A2", c(_x))}]
+            hist.append({"s": "until", "max": 2, "t": {"k": "reg", "h": "FX"}, "v": 0, "cleanup": [], "body": body_})
+            meas += 6
         elif kind == "empty-bodies":
             # completed operations whose body emits no instruction at all
             hist.append({"s": "loop", "start": 0, "stop": 3, "step": 1, "form": "ctx" if r % 2 else "body", "body": []})
@@ -87,6 +109,10 @@ def one_kind(kind: str, reps: int, flush_every: int) -> Dict[str, Any]:
                         {"s": "add", "t": fut("A2", lv(2)), "o": lv(1), "mod": -1}]}]}]})
         if (r + 1) % flush_every == 0:
             hist.append({"s": "flush", "block": False} if kind == "measure-register-nonblocking-flush" else {"s": "flush"})
+            if kind == "measure-into-the-same-register-future":
+                hist.append({"s": "read", "loc": {"k": "reg", "h": "FX"}})
+            if kind == "register-add-future":
+                hist.append({"s": "read", "loc": {"k": "reg", "h": f"F{nq}"}})
             if kind in ("measure-register", "measure-register-nonblocking-flush"):
                 hist.append({"s": "read", "loc": {"k": "reg", "h": f"F{nq}"}})
     hist += [{"s": "flush"}, {"s": "read", "loc": {"k": "arr", "a": "A2"}}]
@@ -111,7 +137,7 @@ def long_history(rng: random.Random, nops: int, flush_every: int) -> Dict[str, A
     return {"history": hist, "meas": [rng.randrange(2) for _ in range(g.meas_used + 8)], "kind": "mixed"}
 
 
-KINDS = ["ez", "nz", "eq", "ne", "lt", "ge", "if-two-futures", "loop", "loop-named-register", "foreach", "until", "add-constants", "add-future", "future-indexed-by-future", "measure-array", "measure-register", "measure-register-nonblocking-flush", "nested", "empty-bodies"]
+KINDS = ["ez", "nz", "eq", "ne", "lt", "ge", "if-two-futures", "loop", "loop-named-register", "foreach", "until", "add-constants", "add-future", "future-indexed-by-future", "measure-array", "measure-register", "measure-register-nonblocking-flush", "register-add-future", "measure-into-the-same-register-future", "nested", "empty-bodies"]
 
 
 EPR_KINDS = ["create_keep", "create_keep_with_info", "recv_keep", "create_keep_sequential", "recv_keep_sequential", "create_context", "recv_context",
